@@ -40,6 +40,25 @@ DET = {
  "C17-2": (["C17 quick"], "C17/file-set-differs", False, "missed as first built (histories had no faults); a delete/gc step may now carry one failing block removal addressed by path"),
  "C18-1": (["C18 quick"], "C18/diff/...", True, ""),
  "C18-2": (["C18 quick"], "C18/diff/classified-unchanged-expected-changed", True, ""),
+ # ---- second round: written against "randomized testing with small inputs" (adversarial prompt)
+ "C01-3": (["C01 quick"], "C01/restore-diff/content", False, "round 2. write_vectored drops buffers beyond IOV_MAX=1024: needs one file of > 1024 blocks. Missed by the generators as first built (files <= 8 KiB); the full tree configuration now has rare files of 20-300 KB, which with small block sizes exceed 1024 blocks"),
+ "C01-4": (["C01 quick"], "C01/restore-diff/mtime", False, "round 2. i128->i64 cast of nanoseconds wraps beyond year 2262 / before 1677: the mtime generator now reaches years ~1000..9000 and the +-9.22e9 s boundary"),
+ "C02-3": (["C02 quick (scale probe many-hunks)", "C01 quick (scale probe)"], "C02/version/restore-error/probe-many-hunks", False, "round 2. index sub-directories listed concurrently, order lost: needs > 10 000 index hunks. Caught by the fixed scale probe added to C01, C02, C05, C08, C10, C13"),
+ "C02-4": (["C02 quick"], "C02/version/restore-diff/content", True, "round 2. whole-second mtime leniency (same idea as C02-2)"),
+ "C05-3": (["C05 quick"], "C05/referenced-block-removed/archive-with-a-missing-block", False, "round 2. reference scan stops when as many hashes were seen as blocks are present: needs an already missing block. Outside the fault-free histories of the statement's quantifier; C05 now has a case class that removes one block before the delete"),
+ "C05-4": (["C05 quick (scale probe many-hunks)"], "C05/referenced-block-removed/probe-many-hunks", False, "round 2. only i/00000 is listed: needs > 10 000 hunks; caught by the scale probe"),
+ "C08-3": (["C08 quick (scale probe many-hunks)"], "C08/listing-differs-from-stitching-rule/probe-many-hunks", False, "round 2. hunk path of hunks >= 10 000 computed wrongly; caught by the scale probe"),
+ "C08-4": (["C08 quick"], "C08/listing-differs-from-stitching-rule/incomplete-straddling", True, "round 2. an empty hunk resets the resume point: the generator already writes empty [] hunks"),
+ "C10-3": (["C10 quick (scale probe many-hunks)"], "C10/lost-file-not-reported/hunk/delete/probe-many-hunks", False, "round 2. a gap consisting of the last hunk of the previous index sub-directory is not reported; caught by the scale probe (hunk 9 999 deleted)"),
+ "C10-4": (["C10 quick (scale probe big-blocks)"], "C10/file-lost-or-altered-silently/block/bitflip/probe-big-blocks", False, "round 2. blocks over 4 MiB bypass the hash check; caught by the scale probe (bit flips in a 6 MiB block)"),
+ "C13-3": (["C13 quick (scale probe big-blocks)"], "C13/block-hash/probe-big-blocks", False, "round 2. blocks over 1 MiB hashed without their last partial MiB; caught by the scale probe (1 MiB + 7 bytes)"),
+ "C13-4": (["C13 quick"], "C13/entries-not-increasing", True, "round 2. comparator skipping the common byte prefix"),
+ "C14-3": (["C14 quick (scale probe resume-200-hunks)"], "C14/unchanged-file-stored-again-after-resume/probe-resume-200-hunks", False, "round 2. bisection over >= 128 hunks drops an entry; caught by the scale probe"),
+ "C14-4": (["C14 quick (scale probe big-blocks)"], "C14/backup-error/probe-big-blocks", False, "round 2. blocks over 4 MB not entered in the present-set: duplicate content in one backup is written twice; caught by the scale probe (two identical 5.5 MiB files)"),
+ "C16-3": (["C16 quick"], "C16/stitched-dir-replaced-by-symlink/outside-modified/extra", False, "round 2. only symlinks that resolve to a directory when created are remembered: needs a chain through a later-sorting sibling link; the generator now builds symlink chains and lets the replaced directory point at a sibling link"),
+ "C16-4": (["C16 quick"], "C16/non-empty-destination-accepted", False, "round 2. a destination holding only lost+found counts as empty: reserved names (lost+found, CONSERVE, GC_LOCK, b0000, ...) are now in the name pool and the pre-populated destination is sometimes exactly that"),
+ "C18-3": (["C18 quick"], "C18/diff/...", True, "round 2. diff ignores sub-second mtime changes when the stored mtime is a whole second"),
+ "C18-4": (["C18 quick"], "C18/backup-callback/file-expected-changed", True, "round 2. chown-only change reported unchanged by the backup callback"),
 }
 
 for d in sorted(glob.glob("/verif/seeded/C*-*")):
